@@ -49,6 +49,7 @@ class Ctx:
         self._sm_vars: dict[tuple, list] = {}
         self.disable_softmax_abstraction = False
         self._pos_memo: dict[int, bool] = {}
+        self.positive_terms: set = set()  # ids of compound terms assumed positive (e.g. 1 - sum of simplex atoms)
         self.positive_vars: set = set()
         self._max: dict[tuple, Term] = {}
         self._opq: dict[tuple, Term] = {}
@@ -142,6 +143,9 @@ class Ctx:
         memo = self._pos_memo
         for n in T.postorder([t]):
             if n.id in memo:
+                continue
+            if n.id in self.positive_terms:
+                memo[n.id] = True
                 continue
             op = n.op
             if op == "const":
@@ -922,6 +926,7 @@ def softmax_lane(vs: list) -> list:
                 atoms.append(a)
             last = T.sub(T.ONE, T.add(*atoms))
             CTX.assumptions.append(T.gt(last, T.ZERO))
+            CTX.positive_terms.add(last.id)
             got = [Val("lin", a) for a in atoms] + [Val("lin", last)]
             CTX._sm[key] = got
             CTX._sm_vars[key] = [v.re for v in vs]
